@@ -131,4 +131,16 @@ TEXT["C01"] = dict(
         "repaired (all-raw multi-sector files read back with their offset table / garbage when encrypted; failed sector "
         "decompression became zeros); known finding D2 (ratio limits reject own output) shared with C03."),
   technique="Lean 4 proof (open-addressing, cipher and layout lemmas) + two-way differential correspondence on real archive bytes")
+TEXT["C02"] = dict(
+  text=("An independent reference implementation (Lean model of the published layout, probing, key derivation and cipher "
+        "with Spec constants; CPython zlib/bz2 as codecs) is run against the library in both directions on real archive "
+        "bytes, and Lean theorems pin down exactly where the two agree: the crate's flag, header-size, method and table-key "
+        "constants and its crypt/fold tables equal the published ones (kernel-evaluated against values regenerated from "
+        "the compiled crate); key derivation coincides for names without a path separator and the cipher for buffers of "
+        "whole dwords, so inside that region every C01 carrier theorem transfers to the reference; outside it the two "
+        "provably differ (kernel-checked witnesses = the two listed findings)."),
+  note=("PARTIAL: V1/V2 subset; CPython codecs trusted. Known findings: encrypted files in sub-directories use a key "
+        "derived from the full path (published: plain name); the 1-3 tail bytes of encrypted buffers are encrypted "
+        "(published: left plain). Both break interoperability for those files in both directions."),
+  technique="Lean 4 proof (constant equalities by kernel evaluation, agreement region + witnesses) + two-way differential run against an independent reference")
 NA = {}
